@@ -338,14 +338,33 @@ def kf_assign_after_def(w: Dict[str, Any]) -> bool:
     diffs = [d for d in w["diff"] if not (d.get("expected") is None and d.get("got") and d["name"].endswith(".setter")
                                           and d["got"].get("node") and p["kind"][d["got"]["node"] - 1] == "setter")]
     parent = p["parent"]
+    kinds, nms = p["kind"], p["nm"]
+
+    def scope_of(i: int) -> int:
+        q = parent[i - 1]
+        while q and kinds[q - 1] not in ("class", "exc", "def", "adef", "cm", "sm", "prop", "setter"):
+            q = parent[q - 1]
+        return q
+
+    def shape(scope: int, name: str) -> bool:
+        """a definition (def / class / property) of the name followed, in the same scope, by an assignment of it"""
+        defs = [k for k in range(1, p["n"] + 1) if nms[k - 1] == name and scope_of(k) == scope and kinds[k - 1] in ("def", "adef", "cm", "sm", "prop", "class", "exc")]
+        return any(kinds[k - 1] == "assign" and nms[k - 1] == name and scope_of(k) == scope and any(j < k for j in defs) for k in range(1, p["n"] + 1))
     survivors = set()
     rest = []
     for d in diffs:
         exp, got = d.get("expected"), d.get("got")
+        if d.get("what") == "attribute docstring" and shape(d["scope"], d["name"]):
+            continue          # which string documents the name follows from which object holds it
         if d.get("what") or not exp or not got or exp.get("kind") != "variable" or got.get("kind") in ("variable", None):
             rest.append(d)
             continue
         i, j = exp.get("node"), got.get("node")      # i: the assignment that wins in Python, j: the definition pydoctor kept
+        if j is None and got.get("kind") == "property" and i is not None:
+            # the property's own docstring (which carries its site) was replaced by a string that follows it (the other open
+            # finding): the property kept is the last one of that name before the assignment
+            cands = [k for k in range(1, i) if kinds[k - 1] == "prop" and nms[k - 1] == d["name"] and scope_of(k) == d["scope"]]
+            j = max(cands) if cands and "docstr" in kinds else None
         if i is None or j is None or p["kind"][i - 1] != "assign" or j >= i or p["nm"][i - 1] != p["nm"][j - 1]:
             return False
         survivors.add(j)
@@ -447,7 +466,12 @@ def kf_adoc_not_adjacent(w: Dict[str, Any]) -> bool:
     p = w["program"]
     if not w["diff"]:
         return False
-    for d in w["diff"]:
+    # differences that are exactly the other open finding (extra 'x.setter' member) may accompany this one
+    diffs = [d for d in w["diff"] if not (d.get("expected") is None and d.get("got") and d["name"].endswith(".setter")
+                                          and d["got"].get("node") and p["kind"][d["got"]["node"] - 1] == "setter")]
+    if not diffs:
+        return False
+    for d in diffs:
         exp, got = d.get("expected") or {}, d.get("got") or {}
         if d.get("what") == "attribute docstring":
             j = got.get("adoc")
